@@ -493,6 +493,10 @@ func c15RawClient(res *lp.Result, s c15Scn) {
 		for j := 0; j < k; j++ {
 			g := &gen.G{R: rng, V: s.version}
 			f := genFrame(g, c15RequestKinds, int16(200+10*k+j))
+			if j == k-1 && k%2 == 0 {
+				// an envelope with an empty body (9 bytes in all) as the last one of the segment
+				f = frame.NewFrame(s.version, int16(200+10*k+j), &message.Options{})
+			}
 			fs = append(fs, f)
 			payload = append(payload, encodeEnvelope(f)...)
 		}
@@ -506,9 +510,15 @@ func c15RawClient(res *lp.Result, s c15Scn) {
 	}
 	// (2) a large envelope over several segments, several split points
 	size := 140000 + s.variant*37000
-	f := bigQuery(s.version, 300, size, rng)
-	env := encodeEnvelope(f)
-	for _, parts := range c15Splits(len(env), s.variant, rng) {
+	for si := 0; si < 5; si++ {
+		// a different envelope size for every split, so that nothing left over from the previous reassembly can fit
+		f := bigQuery(s.version, 300, size+si*1237, rng)
+		env := encodeEnvelope(f)
+		all := c15Splits(len(env), s.variant, rng)
+		if si >= len(all) {
+			break
+		}
+		parts := all[si]
 		off := 0
 		for _, p := range parts {
 			sendSeg(false, env[off:off+p])
@@ -688,6 +698,31 @@ func c15RawServer(res *lp.Result, s c15Scn) {
 	}
 	if !expect(fmt.Sprintf("envelope split over %d segments (first part %s)", len(parts), firstPartClass(parts[0])), inflight[1], big) {
 		return
+	}
+	// a second multi-segment response, of a different size, on the same connection
+	{
+		f2 := frame.NewFrame(s.version, 451, &message.Options{})
+		r2, err := clientConn.Send(f2)
+		if err != nil {
+			viol("client connection unusable after a multi-segment response", err.Error(), "")
+			return
+		}
+		if _, err := readRawSegment(conn, lz); err != nil {
+			viol("bytes sent by the client are not a well-formed v5 segment", err.Error(), "")
+			return
+		}
+		big2 := bigRows(s.version, 451, size-47000+s.variant*13, rng)
+		env2 := encodeEnvelope(big2)
+		sp2 := c15Splits(len(env2), s.variant+1, rng)
+		parts2 := sp2[(s.variant+1)%len(sp2)]
+		off2 := 0
+		for _, p := range parts2 {
+			conn.Write(rawSegment(lz, false, env2[off2:off2+p]))
+			off2 += p
+		}
+		if !expect("second multi-segment envelope of a different size on the same connection", r2, big2) {
+			return
+		}
 	}
 	// the connection is still usable afterwards
 	f := frame.NewFrame(s.version, 450, &message.Options{})
